@@ -234,7 +234,7 @@ class T3Any(object):
     beyond='zeros'); otherwise status FF A2 / 01 A8."""
 
     def __init__(self, blocks, idm=bytes.fromhex('0102030405060708'), pmm=bytes.fromhex('FFFFFFFFFFFFFFFF'),
-                 sys_in_sensf=True, sensf=None, max_read=15, beyond='status', poll=True):
+                 sys_in_sensf=True, sensf=None, max_read=15, beyond='status', poll=True, poll_extra=b''):
         self.blocks = [bytes(b) for b in blocks]
         self.idm = bytes(idm)
         self.pmm = bytes(pmm)
@@ -243,6 +243,7 @@ class T3Any(object):
         self.max_read = max_read
         self.beyond = beyond
         self.poll = poll
+        self.poll_extra = bytes(poll_extra)      # appended to every polling response (request data nobody asked for)
 
     def target(self):
         t = nfc.clf.RemoteTarget("212F")
@@ -259,7 +260,7 @@ class T3Any(object):
         if code == 0x00:
             if not self.poll or len(frame) != 6 or frame[2:4] not in (b'\x12\xfc', b'\xff\xff'):
                 return None
-            rsp = self.idm + self.pmm + (b'\x12\xfc' if frame[4] == 1 else b'')
+            rsp = self.idm + self.pmm + (b'\x12\xfc' if frame[4] == 1 else b'') + self.poll_extra
             return bytes([2 + len(rsp), 1]) + rsp
         if code != 0x06 or frame[2:10] != self.idm:
             return None
@@ -420,6 +421,34 @@ class T4Any(object):
                 return self.iblock()
             return None
         return None
+
+
+class T4Adv(object):
+    """ISO-DEP card that behaves (an inner T4Any) for activation and the first `good` blocks and then answers EVERY block,
+    for ever, in one way:  rack_other / rack_same - R(ACK) with the other / the same block number as the block received,
+    rnak - R(NAK), wtx - S(WTX) request, chain / chain0 - I-block with the chaining bit set (one INF byte / no INF),
+    empty - an empty frame, one - a single byte `byte`."""
+
+    def __init__(self, inner, good, mode, byte=0x02):
+        self.inner = inner
+        self.good = good
+        self.mode = mode
+        self.byte = byte
+        self.n = 0
+
+    def target(self):
+        return self.inner.target()
+
+    def command(self, blk):
+        if not self.inner.activated:
+            return self.inner.command(blk)
+        if self.n < self.good:
+            self.n += 1
+            return self.inner.command(blk)
+        bn = blk[0] & 1 if len(blk) else 0
+        return {'rack_other': bytes([0xA2 | (bn ^ 1)]), 'rack_same': bytes([0xA2 | bn]), 'rnak': bytes([0xB2 | bn]),
+                'wtx': b'\xf2\x01', 'chain': bytes([0x12 | bn, 0xAA]), 'chain0': bytes([0x12 | bn]),
+                'empty': b'', 'one': bytes([self.byte])}[self.mode]
 
 
 class Scripted(object):
